@@ -32,6 +32,24 @@ import sys
 from concurrent.futures import ThreadPoolExecutor
 
 PY = "/venv/bin/python"
+# Interpreter start-up of every child process of this property: -S = the site module is not imported, so
+# no .pth hook / sitecustomize pre-imports stdlib submodules (importlib.util, collections.abc, ...) "for"
+# the host program; third-party packages stay importable through an explicit path entry.
+START_FLAGS = ["-S"]
+
+
+def site_packages():
+    import sysconfig
+    return sysconfig.get_paths()["purelib"]
+
+
+def child_env(env, repo=None):
+    e = dict(env or {"PATH": os.environ.get("PATH", "")})
+    e["PYTHONPATH"] = os.pathsep.join([x for x in (repo, site_packages()) if x])
+    e["PYTHONDONTWRITEBYTECODE"] = "1"
+    e["PYTHONHASHSEED"] = "0"
+    e.pop("PYTHONSTARTUP", None)
+    return e
 
 
 class Untranslatable(Exception):
@@ -107,7 +125,8 @@ def measure(names_attrs, env=None):
     def one(item):
         name, d = item
         req = {"attrs": sorted(d["attrs"]), "subs": sorted(d["subs"])}
-        p = subprocess.run([PY, "-c", _PROBE, name, json.dumps(req)], env=env, cwd="/", capture_output=True,
+        p = subprocess.run([PY] + START_FLAGS + ["-c", _PROBE, name, json.dumps(req)], env=child_env(env), cwd="/",
+                           capture_output=True,
                            text=True, timeout=120)
         if p.returncode != 0:
             raise Untranslatable("probe of external module %s failed: %s" % (name, p.stderr[-500:]))
@@ -415,7 +434,67 @@ class Extract(object):
         self.consts = {}       # simple literal constants for evaluating `if` tests / loops
         evs = []
         self.block(self.sc.trees[m].body, evs)
+        self.fn_scan(m)
         return evs
+
+    def fn_scan(self, m):
+        """RUN-TIME uses: attribute chains X.Y (Y a submodule of the package X) inside function and
+        method bodies, with the module-level import bindings in force at the end of the module body plus
+        the imports made inside the same function; and the modules those in-function imports reach"""
+        if not hasattr(self, "fn_uses"):
+            self.fn_uses, self.fn_imports = {}, {}
+        uses, imps = [], []
+        module_env = dict(self.env)
+        for fn in ast.walk(self.sc.trees[m]):
+            if not isinstance(fn, (ast.FunctionDef, ast.AsyncFunctionDef)):
+                continue
+            env = dict(module_env)
+            local = set(a.arg for a in fn.args.posonlyargs + fn.args.args + fn.args.kwonlyargs)
+            for x in (fn.args.vararg, fn.args.kwarg):
+                if x:
+                    local.add(x.arg)
+            body_nodes = [n for st in fn.body for n in ast.walk(st)]
+            for n in body_nodes:
+                if isinstance(n, ast.Name) and isinstance(n.ctx, ast.Store):
+                    local.add(n.id)
+            for n in body_nodes:
+                if isinstance(n, ast.Import):
+                    for a in n.names:
+                        c, ok = self.chain(a.name)
+                        imps.extend(x[1] for x in c if x[0] == "import")
+                        env[a.asname or a.name.split(".")[0]] = a.name if a.asname else a.name.split(".")[0]
+                        local.discard(a.asname or a.name.split(".")[0])
+                elif isinstance(n, ast.ImportFrom) and not (n.module == "__future__" and n.level == 0):
+                    try:
+                        base = self.sc.resolve_from(m, n.level, n.module)
+                    except Untranslatable:
+                        continue
+                    c, ok = self.chain(base)
+                    imps.extend(x[1] for x in c if x[0] == "import")
+                    for a in n.names:
+                        if a.name != "*" and ok and self.is_module(base + "." + a.name):
+                            imps.append(base + "." + a.name)
+                            env[a.asname or a.name] = base + "." + a.name
+            for n in body_nodes:
+                if isinstance(n, ast.Attribute):
+                    chain, x = [], n
+                    while isinstance(x, ast.Attribute):
+                        chain.append(x.attr)
+                        x = x.value
+                    if isinstance(x, ast.Name) and x.id in env and x.id not in local:
+                        dotted = env[x.id]
+                        for a in reversed(chain):
+                            cand = dotted + "." + a
+                            if self.attr_is_plain(dotted, a):
+                                break
+                            if self.is_module(cand):
+                                if cand not in uses:
+                                    uses.append(cand)
+                                dotted = cand
+                            else:
+                                break
+        self.fn_uses[m] = uses
+        self.fn_imports[m] = sorted(set(imps))
 
     def block(self, body, evs):
         for st in body:
@@ -837,7 +916,14 @@ def extract(repo, env=None):
         for k in sorted(sc.mods):
             if k.startswith(m + ".") and "." not in k[len(m) + 1:]:
                 sub_files.append((m, k[len(m) + 1:], k))
-    return {"pkg_bindings": pkg_bindings, "sub_files": sub_files,
+    for m in sorted(sc.mods):
+        for y in p2.fn_uses.get(m, []) + p2.fn_imports.get(m, []):
+            tracked.add(y)
+            if not sc.is_internal(y) and y not in ext_events:
+                ext_events[y] = [("import", x) for x in meas[y]["loaded"] if x in tracked and x != y] \
+                    if y in meas and meas[y]["ok"] else []
+    return {"fn_uses": dict(p2.fn_uses), "fn_imports": dict(p2.fn_imports),
+            "pkg_bindings": pkg_bindings, "sub_files": sub_files,
             "modules": sorted(sc.mods), "events": events, "startup": [s for s in startup if s in tracked],
             "startup_all": startup, "ext": ext_events, "notes": p2.notes,
             "unimportable_ext": sorted(k for k, v in meas.items() if not v["ok"])}
@@ -904,6 +990,12 @@ def render(g, waived):
         "(%d, %d, %d)" % (ids[p], nid(n), ids[k]) for p, n, k in g["sub_files"]))
     L.append("(* name ids: %s *)" % " ".join("%d=%s" % (i, n) for n, i in sorted(names.items(), key=lambda x: x[1])))
     L.append("")
+    L.append("(* RUN-TIME uses inside function bodies: (module, submodule Y used as X.Y) and the modules imported")
+    L.append("   inside function bodies of the module (module, imported module) *)")
+    L.append("Definition fn_uses : list (N * N) := [%s]." % "; ".join(
+        "(%d, %d)" % (ids[m], ids[y]) for m in g["modules"] for y in g["fn_uses"].get(m, []) if y in ids))
+    L.append("Definition fn_imports : list (N * N) := [%s]." % "; ".join(
+        "(%d, %d)" % (ids[m], ids[y]) for m in g["modules"] for y in g["fn_imports"].get(m, []) if y in ids))
     L.append("Definition fuel : nat := S (S (length all_modules + length ext_modules)).")
     L.append("")
     return "\n".join(L), ids
